@@ -333,7 +333,7 @@ func (n *Normer) Norm(v ssa.Value) Poly {
 			return p
 		}
 		st := x.X.Type().Underlying().(*types.Struct)
-		return pAtom(n.Norm(x.X).asAtom() + "." + fname(st.Field(x.Field)))
+		return n.atom(n.Norm(x.X).asAtom() + "." + fname(st.Field(x.Field)))
 	case *ssa.Index:
 		return pAtom("idx(" + n.Norm(x.X).asAtom() + "," + n.Norm(x.Index).String() + ")")
 	case *ssa.Lookup:
@@ -655,7 +655,7 @@ func (n *Normer) normLoad(addr ssa.Value) Poly {
 				base += "." + fname(s.Field(f))
 				t = s.Field(f).Type()
 			}
-			return pAtom(base)
+			return n.atom(base)
 		}
 		if len(exact) == 0 && len(whole) == 0 && !conflict {
 			// zero value of a local
